@@ -187,7 +187,14 @@ public:
     }
 
     // A violation: key must be stable (no addresses, seeds, counters).
+    // progress-only runs (C09 on a harness written for another property): results are not judged here, only
+    // whether every call returns; what the oracles would have said is counted, not reported
+    void mute_result_oracles(bool on) { muted_ = on; }
     void violation(const std::string& key, const std::string& what, const std::string& detail_json) {
+        if (muted_) {
+            count("result_differences_not_judged_by_this_run");
+            return;
+        }
         std::lock_guard<std::mutex> g(mu_);
         auto& n = viol_count_[key];
         ++n;
@@ -248,6 +255,7 @@ private:
     bool exhaustive_{false};
     std::map<std::string, std::string> notes_;
     std::map<std::string, uint64_t> viol_count_;
+    bool muted_{false};
     uint64_t violations_{0};
     std::vector<std::string> inconclusive_;
 };
